@@ -218,9 +218,13 @@ type Plan struct {
 	Stay    float64   `json:"stay,omitempty"`
 	Quantum int64     `json:"quantum"`
 	Picks   []string  `json:"picks,omitempty"` // recorded trace (replay)
+	// ClockJump > 0: the simulated clock jumps forward by two minutes after every so many
+	// scheduler steps (fault kind clock-jump): a compilation must not depend on how long it takes
+	ClockJump int `json:"clock_jump_every,omitempty"`
 }
 
 type runOut struct {
+	ClockJumps int
 	Results    []string
 	LexerLeft  int
 	Steps      int
@@ -239,6 +243,9 @@ func runPlan(t *testing.T, pl *Plan, picker core.Picker) *runOut {
 	s.RefineAt("claim", "convert")
 	tokQuantum.Store(pl.Quantum)
 	tokCount = sync.Map{}
+	if pl.ClockJump > 0 {
+		s.ClockJumpEvery, s.ClockJump = pl.ClockJump, 2*time.Minute
+	}
 	root := func() {
 		var wg sync.WaitGroup
 		for i, src := range pl.Sources {
@@ -257,6 +264,7 @@ func runPlan(t *testing.T, pl *Plan, picker core.Picker) *runOut {
 	core.ResetLabelPins()
 	o.LexerLeft = parser.VerifLexerStateCount()
 	o.Steps, o.Choices, o.MaxParked, o.Picks, o.Stragglers = s.Steps, s.Choices, s.MaxParked, s.Picks, s.Stragglers
+	o.ClockJumps = s.ClockJumps
 	last := ""
 	for _, p := range s.Picks {
 		tk := p
@@ -763,6 +771,9 @@ func worker(t *testing.T, c core.Cfg) {
 				pl.Policy = "uniform"
 			}
 		}
+		if r.Chance(0.25) {
+			pl.ClockJump = r.Range(2, 60) // fault kind clock-jump
+		}
 		o := runPlan(t, pl, makePicker(pl, r.Fork()))
 		if race {
 			for _, s := range pool {
@@ -772,6 +783,10 @@ func worker(t *testing.T, c core.Cfg) {
 		part.Evaluations++
 		part.Cases++
 		part.Steps += int64(o.Steps)
+		if o.ClockJumps > 0 {
+			part.Counters.Add("fault_fired_clock-jump", int64(o.ClockJumps))
+			part.Counters.Inc("plans_with_clock_jumps")
+		}
 		part.Counters.Inc("policy_" + pl.Policy)
 		part.Counters.Add("context_switches", int64(o.Switches))
 		part.Counters.Add("tasks", int64(k))
